@@ -565,7 +565,7 @@ class Explorer:
     """Depth-first path exploration by re-execution."""
 
     def __init__(self, body, *, name="case", max_paths=200000, time_budget=600.0, solver_timeout_ms=20000,
-                 recip_mode=False, known_regions=None, max_cex_per_label=2, logic=None, part=None, witness_paths=3):
+                 recip_mode=False, known_regions=None, max_cex_per_label=2, logic=None, part=None, witness_paths=3, cross_budget=0):
         self.body = body
         self.name = name
         self.max_paths = max_paths
@@ -580,6 +580,7 @@ class Explorer:
         self.incomplete = None
         self.logic = logic
         self.witness_paths = witness_paths
+        self.cross_budget = cross_budget  # how many discharged obligations of this exploration get a second-solver opinion
         self.witnesses = []
         self.persist = {}  # survives across paths of this exploration (visited-state tables etc.)
         self.part = part  # (i, m): explore only the paths whose first m genuine forks follow the bits of i
@@ -828,6 +829,8 @@ class Explorer:
             r = self._check(neg, *extra)
             if r == z3.unsat:
                 ob[1] += 1
+                if self.cross_budget > 0:
+                    self._cross_check(neg, extra, label)
                 return True
             if r == z3.unknown:
                 # sat-side fallback: pin the inputs to random small rationals (ground query, UFs stay free); a model found this
@@ -880,6 +883,40 @@ class Explorer:
             self.known_hits.append((label, hit[0], vals))
             extra.append(z3.Not(hit[1]))
         return False
+
+    def _cross_check(self, neg, extra, label):
+        """Second opinion on an `unsat` verdict: the same query as SMT-LIB2 text to other solver builds (z3 4.8.12 binary, cvc5
+        binary). `sat` from another solver is a disagreement (reported as inconclusive), `unknown`/timeout is only counted."""
+        import os
+        import subprocess
+        import tempfile
+
+        self.cross_budget -= 1
+        try:
+            s2 = z3.Solver()
+            s2.add(*self.solver.assertions())
+            s2.add(neg, *extra)
+            text = s2.to_smt2()
+        except z3.Z3Exception:
+            return
+        fd, path = tempfile.mkstemp(suffix=".smt2", prefix="verif-x-")
+        with os.fdopen(fd, "w") as fh:
+            fh.write(text)
+        try:
+            for name, cmd in (("z3-4.8.12", ["/usr/bin/z3", "-T:10", path]), ("cvc5-1.0", ["cvc5", "--tlimit=10000", path])):
+                try:
+                    out = subprocess.run(cmd, capture_output=True, text=True, timeout=15).stdout.strip().splitlines()
+                    verdict = out[0].strip() if out else "error"
+                    if "(error" in "\n".join(out):
+                        verdict = "error"
+                except Exception:  # noqa: BLE001
+                    verdict = "timeout"
+                key = f"cross_{name}_{verdict if verdict in ('unsat', 'sat', 'unknown', 'timeout') else 'error'}"
+                self.note(key)
+                if verdict == "sat":
+                    self.incomplete = self.incomplete or f"second solver {name} answers sat where z3 answered unsat (obligation {label})"
+        finally:
+            os.unlink(path)
 
     def _random_model(self, neg, extra, tries=24):
         import random
